@@ -23,6 +23,33 @@ def ws_suite(name, count_quick=400, count_thorough=6000):
 
 PROPS = {}
 
+def monitor_search(suite_name, count=48):
+    """A theorem no longer holds: run the named suite and judge every case with its strict
+    property monitor; the first case on which the PROPERTY fails is the replay."""
+    def hook(pid, proofs, seed):
+        from .engine import Finding
+        from . import core
+        suite = [s for s in PROPS[pid]["suites"] if s["name"] == suite_name][0]
+        binary = core.build_harness()
+        try:
+            cases, stat = core.run_harness(binary, suite["harness"], seed, count, extra=suite.get("extra"))
+            codes = core.eval_cases(pid + "_search", suite["imports"], suite["monitor"], suite["case_type"], cases)
+        except Exception as e:  # the search is best effort
+            print("[vcheck] failing-input search could not run: %r" % (e,))
+            return []
+        for idx, n, term in cases:
+            if codes[idx] // 4 != 0:
+                step = codes[idx] // 4 - 1
+                return [Finding("proof", "theorem(s) %s no longer accepted by Coq; property monitor %s fails on the implementation's trace of case %d of suite %s (step %d)" % (
+                                    ", ".join(proofs["failed"][:6]), suite["monitor"], idx, suite_name, step),
+                                dict(suite=suite_name, harness_suite=suite["harness"], seed=seed, count=count, case=idx, keep=None,
+                                     failed_theorems=proofs["failed"], monitor=suite["monitor"], monitor_failed_at_step=step,
+                                     minimized_case=term[:20000], extra=suite.get("extra", {})),
+                                failing_input=True)]
+        return []
+    return hook
+
+
 PROPS["C01"] = dict(
     suites=[udp_suite("udp-swarm-counts", 0b00011, monitor="mon_c01")],
     rule="histories of 6..55 announce/scrape/clean ops on the real aquatic_udp TorrentMaps over pools of 4 info hashes, 7 source addresses "
@@ -161,6 +188,28 @@ PROPS["C06"] = dict(
     assumptions=["little-endian host (connection id byte order)", "datagrams from source port 0 cannot be produced on loopback without raw sockets: "
                  "that clause is a theorem about the model only", "loopback delivers in order per socket pair; io_uring send completions are "
                  "given 15 ms", "the keyed hash is observed as a table; unobserved inputs take a value no sent id carries"],
+)
+
+PROPS["C16"] = dict(
+    suites=[dict(name="http-sys", harness="http-sys", imports=["HttpSysCheck"], case_type="hsys_case",
+                 check="http_sys_code", monitor="http_sys_mon", count_quick=36, count_thorough=1500, nontrivial_bits=3, shrink=False,
+                 crash_is_violation=True)],
+    rule="http-sys: per case a fresh RUNNING tracker (aquatic_http::run in a child process) with socket_workers x swarm_workers drawn from "
+         "{1,2,3}^2, keep_alive on (3/4) or off, max_scrape_torrents in {1,2,3,100}, max_peers in {1,2,3,50}; 4 TCP connections open at once "
+         "(three from 127.0.0.1, one from ::1); 8..21 steps: announces (all events, left 0/1/5000, numwant absent/0/1/2/5/60, 7 ports, 6 "
+         "torrents whose first bytes 0..5 spread over the swarm workers), scrapes of 1..9 hashes (known and unknown, repeated, spanning "
+         "workers, more than max_scrape_torrents), complete-but-unusable requests and requests larger than the 2048-byte request buffer "
+         "(no reply expected, then the connection is abandoned), bursts in which all four connections announce to four different torrents "
+         "at the same moment; every request is cut into TCP segments: whole, at 1..4 random bytes, or one byte per segment; compared: the "
+         "raw reply bytes with the model frame (status line, Content-Length, blank padding, body, CRLF; the previous reply's length field "
+         "of that connection is an input of the model), whether the server closed, and the reply contents with the reference tracker; "
+         "non-trivial = the case has a scrape spanning several swarm workers or an unanswered request",
+    modelled="connection.rs write_response (frame in the reused buffer), calculate_request_consumer_index, scrape split/merge, the swarm "
+             "workers' storages (HttpConn.v over HttpSwarm.v, HttpResp.v); request parsing is C14's model, not re-run here",
+    assumptions=["requests are issued one at a time except in bursts, whose members touch different torrents (their replies do not depend on the order)",
+                 "httparse, glommio channels, TLS, SO_REUSEPORT distribution of connections over socket workers are runtime",
+                 "TCP short writes of the reply (`write`, not `write_all`) are runtime"],
+    on_proof_failure=[monitor_search("http-sys")],
 )
 
 PROPS["C05"] = dict(
@@ -392,6 +441,16 @@ LEVELS["C06"] = dict(
     design_ref="DESIGN.md §7 C06", technique="Coq contract theorems over the handler model + in-Coq correspondence with running mio and io_uring trackers",
     note="Trusted: Coq kernel, models, harness, little-endian host. Partial: source port 0 (model only), kernel socket demultiplexing and "
          "SO_REUSEPORT distribution, resend buffer, statistics counters are runtime.")
+
+LEVELS["C16"] = dict(
+    text="Theorems: for every number of swarm workers k >= 1 and every history of announces, scrapes and cleaning passes the k-worker "
+         "tracker never panics and each reply satisfies the SAME specification against the single reference tracker as the one-worker "
+         "tracker (counts, peer selection, one scrape entry per distinct hash among the first max_scrape_torrents); the Content-Length "
+         "bytes of a framed reply do not depend on what the previous reply left in the reused buffer and always equal body length + 2. "
+         "Tied to the code by histories against running trackers for {1,2,3}^2 workers, keep-alive on/off, segmented requests.",
+    design_ref="DESIGN.md §7 C16", technique="Coq refinement proof (k workers -> reference tracker) + framing lemmas + in-Coq correspondence with running trackers",
+    note="Trusted: Coq kernel, models, harness. Partial: socket-worker scheduling, channel delivery, pipelined requests, TCP short writes, "
+         "TLS and the reverse-proxy header path are runtime.")
 
 LEVELS["C05"] = dict(
     text="Theorems for every keyed-hash function, every time, age (0..2^32-1) and address: exact acceptance window; the accepted strings are "
